@@ -367,6 +367,8 @@ def run_unit(args):
         res["kind"] = unit.kind
         I = S.new_interp(P, unit)
         _TIMEOUT = 10000 if tier == "quick" else 60000
+        if tier != "quick":
+            os.environ.setdefault("PYVC_EXPLORE_S", "3600")
         obls = res["obligations"]
 
         def run(st):
